@@ -42,10 +42,14 @@ def run(ck, rng):
             its = fixed
             doc = spell(its, gen_spelling(rng, its, allow_heading=False))
             op = "%s,%s,%s,%s,-,-,-,-,%s" % ("m" if vname == "md" else "md", dry, exts_plus(exts), hx(target), hx(doc))
+            if rng.random() < 0.2:
+                op += "," + rng.choice("jyt")      # an encoding option on a mkdir call must not switch validation off
             flat = flat_merged(its)
         else:
             flat = merged_items(items)[0]
             op = ";".join(canonical_build(flat) + ["%s,0,%s,%s,%s,-,-,-,-" % ("M" if vname == "root" else "Md", dry, exts_plus(exts), hx(target))])
+            if rng.random() < 0.2:
+                op += "," + rng.choice("jyt")
         cases.append(("mhist " if massive else "hist ") + "F,%s;%s" % (snap_arg(pre), op))
         meta.append((vname + ("_massive" if massive else "") + ("_dry" if dry == "1" else ""), flat, target, massive))
     impl, _ = run_impl(exe, cases)
@@ -61,7 +65,7 @@ def run(ck, rng):
         r, _, snap = parts[-1].split(" ")
         after = parse_snap(snap)
         ct = clean_target(target)
-        inside = lambda p: ct == b"." and not p.startswith(b"..") or p == ct or p.startswith(ct + b"/")
+        inside = lambda p: (ct == b"." and p != b".." and not p.startswith(b"../")) or p == ct or p.startswith(ct + b"/")
         bad = None
         outside_changes = [p for p in set(before) | set(after) if before.get(p) != after.get(p) and not inside(p)]
         inside_damage = [p for p in before if before.get(p) != after.get(p)]
